@@ -118,6 +118,14 @@ func (s *Service) scanFragmentForEviction(partID uint64, name string, f *fragmen
 			3- If more than 25% of keys were expired, start again from step 1.
 	*/
 
+	// Only the current owner of the partition evicts. A previous owner keeps its fragment just until
+	// the balancer has moved it; an entry that expired there may still be the newest version of
+	// its key, and removing it here (without touching the owner's copy) makes an older version on
+	// the current owner readable again. After the move the owner evicts the merged entry.
+	if part := s.primary.PartitionByID(partID); part.OwnerCount() == 0 || !part.Owner().CompareByName(s.rt.This()) {
+		return
+	}
+
 	// We need limits to prevent CPU starvation. deleteOnCluster does some network operation
 	// to delete keys from the backup nodes and the previous owners.
 	var maxKeyCount = 20
